@@ -89,7 +89,19 @@ func maybeClearsigned(t *rapid.T, b *docBuilder) string {
 	w.Write(raw)
 	w.Close()
 	hash := rapid.SampledFrom([]string{"Hash: SHA256\n", "Hash: SHA512\n", "Hash: SHA1\n"}).Draw(t, "hashLine")
-	return "-----BEGIN PGP SIGNED MESSAGE-----\n" + hash + "\n" + body.String() + "\n" + sig.String() + "\n"
+	armored := sig.String()
+	if rapid.IntRange(0, 2).Draw(t, "noCRC") == 0 {
+		// newer OpenPGP implementations leave the optional checksum line out
+		lines := strings.SplitAfter(armored, "\n")
+		kept := lines[:0]
+		for _, l := range lines {
+			if !(strings.HasPrefix(l, "=") && len(strings.TrimSpace(l)) == 5) {
+				kept = append(kept, l)
+			}
+		}
+		armored = strings.Join(kept, "")
+	}
+	return "-----BEGIN PGP SIGNED MESSAGE-----\n" + hash + "\n" + body.String() + "\n" + armored + "\n"
 }
 
 // ------------------------------------------------------------------ .dsc
@@ -956,7 +968,7 @@ func genPackageListLine(t *rapid.T, label, bin string) string {
 
 var specC10 = Register(&Spec[TypedDocCase]{
 	Prop: "C10", Name: "typed",
-	Rule:  "six document kinds rendered from a field model in the layout the Debian tools emit (a third of the .dsc and .changes documents inside a clearsign frame - Hash line, dash-escaped text, a well-formed armored signature block of random bytes; no keyring is given, nothing is verified): .dsc (Binary 'a, b, c' single-line or folded, Architecture list, Uploaders, Build-Depends* single-line / folded / wrap-and-sort, Package-List lines of 4 to 8 columns (arch=, profile=, protected=, essential=), Checksums-Sha1/-Sha256, Files), .changes (space-separated Binary, Closes, multi-line Description (one in ten without synopsis and starting with one or two ' .' lines) and Changes with ' .', 5-column Files), debian/control (source paragraph + 1..4 binary paragraphs, the Architecture list in a quarter of the documents laid out by hand - two blanks, a tab, folded under the first element, folded behind a tab -, folded Uploaders and dependency fields with substvars as alternatives and - in half of the documents - inside version clauses ((= ${binary:Version}), (<< ${source:Version}~), (>= ${source:Upstream-Version}.1~)), comment lines in a quarter of the documents (in front of fields, between the lines of folded ones, at the top and bottom), Essential, multi-line Description), Packages and Sources indexes of 1..4 paragraphs or (one in 25) the same paragraphs repeated to 1025 .. 4100; Packages (Source 'name (ver)', Installed-Size, folded Tag, Build-Ids, dependency accessors over single-line, folded and one-relation-per-line fields), Sources (folded Binary, Standards-Version, Vcs-*, Directory, accessors) and DEBIAN/control (decoded from text and, packed into control.tar / control.tar.gz of a minimal .deb, through deb.Load; one in twelve with a description that takes the control file beyond 32 KiB); unknown X- fields sprinkled in; the bufio.Reader handed to the Parse* functions has a generated size 16..65536 and reads from a plain, one-byte, half or data-with-EOF reader. Oracle: every struct field whose Debian field is in the model equals the model (scalars verbatim / reader convention, versions by parts, architectures by triple, dependencies against the model AST, comma/space lists as trimmed elements, file lists as (algorithm, hash, size, name[, section, priority])), accessors agree with the model. Non-trivial: a folded field, >= 2 binaries, >= 2 files or >= 2 paragraphs; distinct by (kind, text, buffer size).",
+	Rule:  "six document kinds rendered from a field model in the layout the Debian tools emit (a third of the .dsc and .changes documents inside a clearsign frame - Hash line, dash-escaped text, a well-formed armored signature block of random bytes, with or without the optional checksum line; no keyring is given, nothing is verified): .dsc (Binary 'a, b, c' single-line or folded, Architecture list, Uploaders, Build-Depends* single-line / folded / wrap-and-sort, Package-List lines of 4 to 8 columns (arch=, profile=, protected=, essential=), Checksums-Sha1/-Sha256, Files), .changes (space-separated Binary, Closes, multi-line Description (one in ten without synopsis and starting with one or two ' .' lines) and Changes with ' .', 5-column Files), debian/control (source paragraph + 1..4 binary paragraphs, the Architecture list in a quarter of the documents laid out by hand - two blanks, a tab, folded under the first element, folded behind a tab -, folded Uploaders and dependency fields with substvars as alternatives and - in half of the documents - inside version clauses ((= ${binary:Version}), (<< ${source:Version}~), (>= ${source:Upstream-Version}.1~)), comment lines in a quarter of the documents (in front of fields, between the lines of folded ones, at the top and bottom), Essential, multi-line Description), Packages and Sources indexes of 1..4 paragraphs or (one in 25) the same paragraphs repeated to 1025 .. 4100; Packages (Source 'name (ver)', Installed-Size, folded Tag, Build-Ids, dependency accessors over single-line, folded and one-relation-per-line fields), Sources (folded Binary, Standards-Version, Vcs-*, Directory, accessors) and DEBIAN/control (decoded from text and, packed into control.tar / control.tar.gz of a minimal .deb, through deb.Load; one in twelve with a description that takes the control file beyond 32 KiB); unknown X- fields sprinkled in; the bufio.Reader handed to the Parse* functions has a generated size 16..65536 and reads from a plain, one-byte, half or data-with-EOF reader. Oracle: every struct field whose Debian field is in the model equals the model (scalars verbatim / reader convention, versions by parts, architectures by triple, dependencies against the model AST, comma/space lists as trimmed elements, file lists as (algorithm, hash, size, name[, section, priority])), accessors agree with the model. Non-trivial: a folded field, >= 2 binaries, >= 2 files or >= 2 paragraphs; distinct by (kind, text, buffer size).",
 	Check: checkTypedDoc,
 })
 
